@@ -51,7 +51,7 @@ def check_basic_fifo(ctx):
             alloc = s.value
             ctx.check(pmatch("CircularAllocator(Q_n)", o.ctor)["n"] == pat("self.depth"), "C14.allocator-size", o.site, "BasicFifo.allocator", found=tstr(o.ctor), required="CircularAllocator(depth): as many identifiers as memory rows")
     if alloc is None:
-        raise AnalysisError("C14", comp.site, "BasicFifo: CircularAllocator submodule not found")
+        raise AnalysisError("C14", comp.site, "BasicFifo: CircularAllocator submodule not found", missing="BasicFifo: CircularAllocator submodule not found")
     mem_decl = comp.init_attr("data")
     ok = mem_decl is not None and (dict(mem_decl[3]).get("depth") == pat("self.depth")) and any(s.value == pat("self.data") for s in ex.of(Submodule))
     ctx.check(ok, "C14.memory-size", comp.site, "BasicFifo.data", found=tstr(mem_decl) if mem_decl else "none", required="memory of `depth` rows, registered as submodule")
@@ -64,7 +64,7 @@ def check_basic_fifo(ctx):
             kw = dict(o.ctor[3])
             rd_m = {"d": kw.get("domain", ("c", "sync")), "t": kw.get("transparent_for", ("list",))}
     if wr is None or rd is None:
-        raise AnalysisError("C14", comp.site, "BasicFifo: memory ports not found")
+        raise AnalysisError("C14", comp.site, "BasicFifo: memory ports not found", missing="BasicFifo: memory ports not found")
     ctx.check(rd_m["d"] == ("c", "sync") and rd_m["t"][0] == "list" and wr in rd_m["t"][1:], "C14.read-port-transparent", ex.obj(rd).site, "BasicFifo.read_port",
               found=tstr(ex.obj(rd).ctor), required="synchronous read port, transparent for the write port (an element written this cycle can be read next cycle)")
     # declared ranges of the mirrors: the level can equal depth, the pointers address depth rows
